@@ -43,7 +43,7 @@ def run(names, repo, workdir, tier="quick"):
         t0 = time.time()
         try:
             # thorough tier: wider value domains per draw and a ten times larger case budget
-            e = dict(os.environ)
+            e = dict(os.environ, RUST_BACKTRACE="0")
             args = [exe, "--enum", n]
             if tier == "thorough":
                 e["VERIF_ENUM_WIDE"] = "1"
